@@ -228,6 +228,9 @@ def run_batch(modname: str, tier: str, batch_seed: int) -> int:
     t0 = time.time()
     mod = load_prop(modname)
     n_runs = mod.RUNS[tier]
+    if os.environ.get("VERIF_RUNS_DIV"):
+        # used by tools/mutation_survey.py only: a fraction of the tier's runs per check
+        n_runs = max(200, n_runs // int(os.environ["VERIF_RUNS_DIV"]))
     budget = float(os.environ.get("VERIF_BUDGET_S", mod.BUDGET_S[tier]))
     jobs = int(os.environ.get("VERIF_JOBS", str(min(16, os.cpu_count() or 1))))
     chunk = int(getattr(mod, "CHUNK", 64))
